@@ -2,6 +2,7 @@ import Bpp.Bridge
 import Bpp.BatchThm
 import Bpp.RecoveryThm
 import Bpp.PromiseThm
+import Bpp.BatchFlow
 /-! # Property theorems
 
 Only the property statements live here, one block per C-id, each about the **executable** model functions of
@@ -110,5 +111,66 @@ theorem C02_response_d1_unique (I : RangeInst F M) (π : ProofM F M) (d1' : ℕ 
 example : (1 : ℕ) * 2 = 2 ^ [(3 : ℚ)].length ∧ (2 : ℕ) = 2 ^ 1 ∧ (5 : ℚ) ≠ 0 ∧ (5 : ℚ) ≠ 1 ∧ ∀ x ∈ [(3 : ℚ)], x ≠ 0 := by
   refine ⟨by simp, by simp, by norm_num, by norm_num, ?_⟩
   intro x hx; simp at hx; subst hx; norm_num
+
+/-! ## C03 Batch verification
+
+Two layers. *Algebra*: a chunk's check is `Σ_i w_i • R_i = 0` where, by `C02_contribution_eq`, `R_i` is member `i`'s
+reference residual. *Control flow*: `Model.Batch.verifyBatch` (chunking, consistency, result assembly), where the
+algebra is abstracted to the bit `valid` under the random-weight idealisation justified by the algebra layer. -/
+
+/-- **C03 (if).** Every member valid ⇒ the chunk sum vanishes, for any weights. -/
+theorem C03_chunk_all_valid (k : ℕ) (w : ℕ → F) (R : ℕ → M) (h : ∀ i < k, R i = 0) :
+    Model.sumTo k (fun i => w i • R i) = 0 := by
+  rw [sumTo_eq]; exact batch_all_valid k w R h
+
+/-- **C03 (only if, one bad member).** With a non-zero weight a single invalid member cannot be hidden. -/
+theorem C03_chunk_one_invalid (k : ℕ) (w : ℕ → F) (R : ℕ → M) (j : ℕ) (hj : j < k)
+    (hRj : R j ≠ 0) (hw : w j ≠ 0) (hothers : ∀ i < k, i ≠ j → R i = 0) :
+    Model.sumTo k (fun i => w i • R i) ≠ 0 := by
+  rw [sumTo_eq]; exact batch_one_invalid k w R j hj hRj hw hothers
+
+/-- **C03/C08 (only if, general).** Fix the residuals with member `j` invalid and fix every other weight: at most one
+    value of `w j` makes the chunk sum vanish (probability ≤ 1/ℓ for a weight unpredictable once the proofs are fixed). -/
+theorem C03_chunk_at_most_one_weight (k : ℕ) (w w' : ℕ → F) (R : ℕ → M) (j : ℕ) (hj : j < k)
+    (hRj : R j ≠ 0) (hagree : ∀ i, i ≠ j → w i = w' i)
+    (h0 : Model.sumTo k (fun i => w i • R i) = 0) (h0' : Model.sumTo k (fun i => w' i • R i) = 0) : w j = w' j := by
+  rw [sumTo_eq] at h0 h0'; exact batch_at_most_one_weight k w w' R j hj hRj hagree h0 h0'
+
+open Model.Batch in
+/-- **C03 (shape).** On success there is exactly one result per member and the i-th belongs to the i-th triple —
+    for every chunk size and batch size. -/
+theorem C03_result_aligned (c : ℕ) (a : Action) (nT nP : ℕ) (ms : List Member) (r : List Bool)
+    (h : verifyBatch c a nT nP ms = some r) :
+    r.length = ms.length ∧ ∀ i (hi : i < ms.length), r[i]? = some (maskOf a ms[i]) :=
+  BatchFlow.verifyBatch_aligned c a nT nP ms r h
+
+open Model.Batch in
+/-- **C03 (iff).** A batch call succeeds iff the three sequences are non-empty and equally long, the members agree on
+    Pedersen generators, bit length and extension degree (with proofs of that degree and promises in range), every
+    proof has the right shape, and — unless only recovering — every member is valid on its own. No chunk size, batch
+    size or position enters the condition. -/
+theorem C03_accept_iff (c : ℕ) (a : Action) (nT nP : ℕ) (ms : List Member) :
+    (verifyBatch c a nT nP ms).isSome = true ↔ BatchFlow.Acceptable a nT nP ms :=
+  BatchFlow.verifyBatch_isSome_iff c a nT nP ms
+
+open Model.Batch in
+/-- **C03 (refusal).** -/
+theorem C03_refuses (c : ℕ) (a : Action) (nT nP : ℕ) (ms : List Member)
+    (h : ms = [] ∨ nT ≠ ms.length ∨ nP ≠ ms.length ∨
+      (∃ x ∈ ms, ∃ y ∈ ms, x.ped ≠ y.ped ∨ x.n ≠ y.n ∨ x.t ≠ y.t ∨ y.d1 ≠ x.t) ∨ (∃ x ∈ ms, x.promisesFit = false)) :
+    verifyBatch c a nT nP ms = none :=
+  BatchFlow.verifyBatch_refuses c a nT nP ms h
+
+open Model.Batch in
+/-- **C03 (any order, any chunk size).** -/
+theorem C03_perm_chunk (c c' : ℕ) (a : Action) (nT nP : ℕ) {ms ms' : List Member} (hp : ms.Perm ms') :
+    (verifyBatch c a nT nP ms).isSome = (verifyBatch c' a nT nP ms').isSome := by
+  rw [BatchFlow.verifyBatch_chunk_irrelevant c c', BatchFlow.verifyBatch_perm c' a nT nP hp]
+
+/-- the pre-fix control flow (first chunk only) violates `C03_result_aligned` and `C03_accept_iff` -/
+theorem C03_prefix_defect :
+    Model.Batch.verifyBatchPrefix 2 .verifyOnly 3 3 [BatchFlow.good, BatchFlow.good, BatchFlow.bad] = some [false, false] ∧
+    Model.Batch.verifyBatch 2 .verifyOnly 3 3 [BatchFlow.good, BatchFlow.good, BatchFlow.bad] = none :=
+  BatchFlow.verifyBatchPrefix_counterexample
 
 end Bpp
